@@ -279,6 +279,36 @@ def consumed {α τ : Type} (s : St α τ) : List (Event α) → List (Res α)
   | [] => []
   | e :: es => (consumedBy s e).toList ++ consumed (step s e) es
 
+/-! ### `load_balancing::Plan` over an arbitrary policy (`plan.rs:110-169`) -/
+
+/-- What a policy yields: a node and possibly a shard (`(NodeRef, Option<Shard>)`). -/
+abbrev RawTarget := Nat × Option Nat
+
+/-- The entries `Plan` takes from a policy, before shards are filled in (`plan.rs:113-168`): the picked target, then
+the fallback with every entry EQUAL (node and `Option<Shard>`) to the picked one skipped; if `pick` returns `None`,
+the first fallback entry plays the role of the picked one. -/
+def lbRaw (pick : Option RawTarget) (fallback : List RawTarget) : List RawTarget :=
+  match pick with
+  | some p => p :: fallback.filter (fun t => t != p)
+  | none =>
+    match fallback with
+    | [] => []
+    | f :: rest => f :: rest.filter (fun t => t != f)
+
+/-- `with_random_shard_if_unknown` (`plan.rs:94-107`) along a plan: an entry without a shard gets the next random
+shard (`ρ`; the real code draws it below the node's shard count). -/
+def resolveAll : List RawTarget → List Nat → List (Nat × Nat)
+  | [], _ => []
+  | (n, some s) :: rest, ρ => (n, s) :: resolveAll rest ρ
+  | (n, none) :: rest, r :: ρ => (n, r) :: resolveAll rest ρ
+  | (n, none) :: rest, [] => (n, 0) :: resolveAll rest []
+
+/-- `SingleTargetLoadBalancingPolicy` (`single_target.rs:62-100`): `pick` is the configured node (if it is found in
+the cluster metadata) with the configured shard, `fallback` is empty. -/
+def singleTargetPick (found : Bool) (node : Nat) (shard : Option Nat) : Option RawTarget :=
+  if found then some (node, shard) else none
+def singleTargetFallback : List RawTarget := []
+
 /-! ### the plan of a page fetch (`pager.rs:337-365`) -/
 
 /-- A target as `load_balancing::Plan` yields it: `(node, shard)`. -/
